@@ -1,5 +1,10 @@
 import RainModel.Model.Blocks
 import RainModel.Lemmas.Blocks
+import RainModel.Model.Geometry
+import RainModel.Lemmas.Geometry
+import RainModel.Lemmas.SectionIO
+import RainModel.Lemmas.Jobs
+import RainModel.Lemmas.CreateVerify
 /-!
 C02 — piece/file geometry.  Property theorems only; helper lemmas live in `Lemmas/`.
 -/
@@ -41,5 +46,276 @@ tile `[pad 2][data 3]`; the same witness is kept in `corpus/blocks/`. -/
 theorem calcBlocksStale_counterexample :
     ∃ bl, calcBlocksStale 4 [⟨2, true⟩, ⟨3, false⟩] = some bl ∧ Tiles 4 [⟨2, true⟩, ⟨3, false⟩] bl = false := by
   exact ⟨[⟨0, 3⟩], by decide, by decide⟩
+
+/-! ### `piece.NewPieces` -/
+section NewPieces
+open Rain.Geometry
+
+/-- **newPieces_tiles.** For every input satisfying what `metainfo.NewInfo` establishes (`WF`: at
+least one file, lengths ≥ 0 summing to `Length`, `0 < pieceLength < 2^32`,
+`(n−1)·pl < Length ≤ n·pl`) the two-cursor loop of `NewPieces` does not panic (no index out of
+range in `nextFile`) and its result satisfies `TilesFiles` — the very predicate the check
+evaluates on the implementation's output: there are `n` pieces; the flattened per-byte stream of
+`(fileIndex, offset)` over all sections of all pieces in order equals the stream of all files'
+bytes in order (each byte exactly once; zero-length files contribute zero-length sections or
+none); every piece's length is the sum of its sections, equals `pl` except for a non-empty,
+possibly shorter last piece; the piece lengths sum to `Length`; every section carries the
+padding flag and name of its file and lies inside it. -/
+theorem newPieces_tiles (files : List FileEnt) (pl n L : Nat) (h : WF files pl n L) :
+    ∃ ps steps, newPieces files pl n L = .ok (ps, steps) ∧ TilesFiles files pl n L ps = true := by
+  obtain ⟨ps, st, hrun, ht, _⟩ := newPieces_spec files pl n L h
+  exact ⟨ps, st, hrun, ht⟩
+
+/-- **newPieces_steps_le.** For *every* input (well-formed or not, non-negative lengths) the
+model's fuel is never exhausted — `NewPieces` terminates — and the number of iterations of the
+inner loop is at most `numPieces + numFiles`, independent of `Length` and of the file sizes
+(work linear in the size of the metainfo; used by C06). -/
+theorem newPieces_steps_le (files : List FileEnt) (pl n L : Nat) :
+    newPieces files pl n L ≠ .fuel ∧
+    ∀ ps steps, newPieces files pl n L = .ok (ps, steps) → steps ≤ n + files.length := by
+  cases files with
+  | nil => exact ⟨by simp [newPieces], by simp [newPieces]⟩
+  | cons f r =>
+    simp only [newPieces]
+    rcases pieces_steps pl L n { fi := 0, cur := f, rest := r, foff := 0, total := 0 } with hp | ⟨ps, st, hrun, hst⟩
+    · rw [hp]; exact ⟨by simp, by simp⟩
+    · rw [hrun]
+      refine ⟨by simp, ?_⟩
+      intro ps' st' heq
+      cases heq
+      simp only [List.length_cons] at hst ⊢
+      omega
+
+/-- Non-vacuity: a layout with a zero-length file, a padding file straddling a piece boundary,
+and a short last piece is well-formed, and the loop produces exactly this tiling in 6 steps. -/
+example : WF [⟨3, false, 1⟩, ⟨0, false, 2⟩, ⟨2, true, 3⟩, ⟨4, false, 4⟩] 4 3 9 ∧
+    newPieces [⟨3, false, 1⟩, ⟨0, false, 2⟩, ⟨2, true, 3⟩, ⟨4, false, 4⟩] 4 3 9 = .ok (
+      [⟨4, [⟨0, 0, 3, false, 1⟩, ⟨1, 0, 0, false, 2⟩, ⟨2, 0, 1, true, 3⟩]⟩,
+       ⟨4, [⟨2, 1, 1, true, 3⟩, ⟨3, 0, 3, false, 4⟩]⟩,
+       ⟨1, [⟨3, 3, 1, false, 4⟩]⟩], 6) := by decide
+
+/-- The hypothesis matters: with one byte more announced than the files hold the loop runs off
+the end of the file list (the index panic of `nextFile`), and the predicate is not trivially true. -/
+example : newPieces [⟨3, false, 1⟩] 4 1 4 = .panic ∧
+    TilesFiles [⟨3, false, 1⟩, ⟨1, false, 2⟩] 4 1 4 [⟨4, [⟨0, 0, 4, false, 1⟩]⟩] = false := by decide
+
+end NewPieces
+
+/-! ### `filesection.Piece.Write` / `ReadAt`, `storage.PaddingFile` -/
+section ReadWrite
+open Rain.Geometry
+
+/-- **read_write_roundtrip.** Let the sections of a piece fit the store (`fits`: a padding section
+sits on a `PaddingFile`, a data section inside a data file) and let its data sections be pairwise
+disjoint (`(dataStream p).Nodup`, which `newPieces_tiles` gives for every piece of an accepted
+metainfo).  Then for every buffer of the piece's length:
+* `Write` does not panic — in particular it never calls `WriteAt` on a padding file, which is
+  the only way the model's `write` can yield `.panic` besides a short buffer — reports exactly the
+  number of non-padding bytes, and satisfies the executable oracle `writeOK`;
+* no byte outside the piece's data sections changes and padding files stay padding files;
+* for **every** `off`, `n` with `0 < n` and `off + n ≤ piece length`, `ReadAt` afterwards does not
+  panic (no index out of range in the skip loop, also for `off` on a section boundary and with
+  zero-length sections) and returns exactly `buf[off, off+n)` with the padding regions replaced
+  by zeros (`readOK`). -/
+theorem read_write_roundtrip (st : Store) (p : List Geometry.Sec) (buf : List Nat)
+    (hfit : fits st p = true) (hdis : (dataStream p).Nodup) (hlen : buf.length = secsLen p) :
+    ∃ st', write st p buf 0 = .ok st' (secsLen (p.filter fun s => !s.pad)) ∧
+      writeOK st p buf (.ok st' (secsLen (p.filter fun s => !s.pad))) = true ∧
+      (∀ f o, (f, o) ∉ dataStream p → getByte st' f o = getByte st f o) ∧
+      (∀ f : Nat, st[f]? = some FileStore.padding → st'[f]? = some FileStore.padding) ∧
+      ∀ off n, 0 < n → off + n ≤ secsLen p →
+        readAt st' p off n = .ok (((zeroPadding p buf).drop off).take n) ∧
+        readOK st' p off n (readAt st' p off n) = true := by
+  obtain ⟨st', hw, hsh, hfr, hc⟩ := write_spec p st buf 0 hfit hdis (by omega)
+  rw [Nat.zero_add] at hw
+  refine ⟨st', hw, writeOK_of rfl hc hsh hfr, hfr, hsh.pad, ?_⟩
+  intro off n hn hle
+  have hr := readAt_spec st' p off n (fits_of_sameShape hsh p hfit) hn hle
+  refine ⟨by rw [hr, hc], ?_⟩
+  rw [hr]; simp [readOK]
+
+/-- **pieces_roundtrip.** `read_write_roundtrip` applies to every piece of every accepted
+metainfo: for `WF` inputs and a store as the allocator leaves it (`storeMatches`), all pieces of
+`NewPieces` fit the store, the byte positions of all sections of all pieces are pairwise distinct
+(no two pieces — and no two sections of one piece — share a byte on disk; this is the
+disjointness C01 uses), and hence every piece can be written and any sub-range read back. -/
+theorem pieces_roundtrip (files : List FileEnt) (pl n L : Nat) (h : WF files pl n L) (st : Store)
+    (hst : storeMatches files st = true) :
+    ∃ ps steps, newPieces files pl n L = .ok (ps, steps) ∧ (secStream (allSecs ps)).Nodup ∧
+      ∀ p ∈ ps, fits st p.secs = true ∧ (dataStream p.secs).Nodup ∧ p.len = secsLen p.secs := by
+  obtain ⟨ps, steps, hrun, ht, hmeta, _⟩ := newPieces_spec files pl n L h
+  obtain ⟨hnd, hnds⟩ := nodup_of_tiles ht
+  refine ⟨ps, steps, hrun, hnd, fun p hp => ⟨?_, hnds p hp, ?_⟩⟩
+  · apply fits_of_storeMatches hst
+    intro s hs
+    apply hmeta s
+    simp only [allSecs, List.mem_flatMap]
+    exact ⟨p, hp, hs⟩
+  · simp only [TilesFiles, Bool.and_eq_true, beq_iff_eq, List.all_eq_true] at ht
+    simpa [secsLen] using ht.1.1.1.2 p hp
+
+/-- Reading needs no preceding write: any in-range `ReadAt` on a fitting piece returns the
+piece's content (padding as zeros); this is the statement C03 (upload) and the verifier rely on. -/
+theorem readAt_in_range (st : Store) (p : List Geometry.Sec) (off n : Nat) (hfit : fits st p = true) (hn : 0 < n)
+    (hle : off + n ≤ secsLen p) : readOK st p off n (readAt st p off n) = true := by
+  rw [readAt_spec st p off n hfit hn hle]; simp [readOK]
+
+/-- Non-vacuity: a piece `[data 2 of file 0 @1][pad 2][zero-length data][data 1 of file 2 @0]`;
+write `1,2,3,4,5`, then read `[1,4)` (starting inside the first section, crossing the padding and
+the zero-length section boundary). -/
+example :
+    let st : Store := [.data [9, 9, 9], .padding, .data [7]]
+    let p : List Geometry.Sec := [⟨0, 1, 2, false, 1⟩, ⟨1, 0, 2, true, 2⟩, ⟨0, 3, 0, false, 1⟩, ⟨2, 0, 1, false, 3⟩]
+    fits st p = true ∧ (dataStream p).Nodup ∧
+    write st p [1, 2, 3, 4, 5] 0 = .ok [.data [9, 1, 2], .padding, .data [5]] 3 ∧
+    readAt [.data [9, 1, 2], .padding, .data [5]] p 1 4 = .ok [2, 0, 0, 5] ∧
+    readAt [.data [9, 1, 2], .padding, .data [5]] p 2 2 = .ok [0, 0] := by decide
+
+/-- Outside the hypotheses the model does show the Go failures: an offset past the end panics
+(`p[i]` with `i = len(p)`), a data section on a padding file panics in `Write`. -/
+example : readAt [.data [1, 2]] [⟨0, 0, 2, false, 1⟩] 3 1 = .panic ∧
+    write [.padding] [⟨0, 0, 1, false, 1⟩] [5] 0 = .panic [.padding] := by decide
+
+end ReadWrite
+
+/-! ### `urldownloader.createJobs` -/
+section Jobs
+open Rain.Geometry
+
+/-- **jobs_cover.** For every accepted metainfo (`WF`, and file names as `NewInfo` leaves them:
+none empty, no two non-padding files with the same name — `namesOK`) and every piece range
+`begin ≤ end ≤ numPieces`, `createJobs` on the pieces built by `NewPieces` does not panic and its
+job list, read in order, reproduces the byte stream of the sections of pieces `[begin, end)`
+token by token (`JobsCover`, the predicate the check evaluates on the implementation's output):
+a byte of a non-padding section `(name, offset)` is byte `RangeBegin + k` of a job with that
+file name, padding sections are covered by padding jobs (zeros, never requested), and no job is
+empty (zero-length files are dropped).  Also covers `begin > 0`, where the Go code never takes its
+`i == 0 && j == 0` initialisation branch and relies on the zero job being unmergeable. -/
+theorem jobs_cover (files : List FileEnt) (pl n L : Nat) (h : WF files pl n L) (hnames : namesOK files = true)
+    (b e : Nat) (hbe : b ≤ e) (he : e ≤ n) :
+    ∃ ps steps jobs, newPieces files pl n L = .ok (ps, steps) ∧ createJobs ps b e = some jobs ∧
+      JobsCover (secsOfRange ps b e) jobs = true := by
+  obtain ⟨ps, st, hrun, ht, hmeta, q, hwalk⟩ := newPieces_spec files pl n L h
+  have hlen : ps.length = n := by
+    simp only [TilesFiles, Bool.and_eq_true, beq_iff_eq] at ht
+    exact ht.1.1.1.1.1
+  obtain ⟨jobs, hj, hc⟩ := createJobs_cover hnames ps (0, 0) q hwalk hmeta b e hbe (by omega)
+  exact ⟨ps, st, jobs, hrun, hj, hc⟩
+
+/-- Non-vacuity: data file 1 (3 bytes), an empty file 2, a padding file (2 bytes, name 102), data
+file 4 (4 bytes), piece length 4.  Jobs for pieces `[1, 3)` start in the middle of the padding
+file; the empty file is dropped in `[0, 3)`. -/
+example :
+    let files : List FileEnt := [⟨3, false, 1⟩, ⟨0, false, 2⟩, ⟨2, true, 102⟩, ⟨4, false, 4⟩]
+    WF files 4 3 9 ∧ namesOK files = true ∧
+    ∃ ps st, newPieces files 4 3 9 = .ok (ps, st) ∧
+      createJobs ps 0 3 = some [⟨1, 0, 3, false⟩, ⟨102, 0, 2, true⟩, ⟨4, 0, 4, false⟩] ∧
+      createJobs ps 1 3 = some [⟨102, 1, 1, true⟩, ⟨4, 0, 4, false⟩] := by
+  refine ⟨by decide, by decide, _, _, rfl, by decide, by decide⟩
+
+/-- The name hypothesis matters: two *non-padding* files with one name (rejected by `NewInfo` as
+"duplicate file name") are merged into one job that does not cover the sections. -/
+example :
+    let files : List FileEnt := [⟨2, false, 7⟩, ⟨2, false, 7⟩]
+    namesOK files = false ∧
+    ∃ ps st, newPieces files 4 1 4 = .ok (ps, st) ∧
+      createJobs ps 0 1 = some [⟨7, 0, 4, false⟩] ∧ JobsCover (secsOfRange ps 0 1) [⟨7, 0, 4, false⟩] = false := by
+  refine ⟨by decide, _, _, rfl, by decide, by decide⟩
+
+end Jobs
+
+/-! ### creation (`metainfo.NewInfoBytes`) against the verifier -/
+section CreateVerify
+open Rain.Geometry
+
+/-- **create_verify, full statement** (what C02 asks, FALSE of the code — finding F02): for every
+hash function `H`, every list of files `(entry, content)` with `entry.len = |content|` — whatever
+padding flags parsing assigns — whose metainfo is well-formed, the piece table computed by the
+creation loop over the contents in order makes the verifier, run on the pieces of `NewPieces`
+over the storage of that same directory, set every bit. -/
+def create_verify_full : Prop :=
+  ∀ (H : List Nat → Nat) (pl n : Nat) (fs : List (FileEnt × List Nat)),
+    (∀ x ∈ fs, x.1.len = x.2.length) → WF (fs.map (·.1)) pl n (totalLen (fs.map (·.1))) →
+    ∃ ps st, newPieces (fs.map (·.1)) pl n (totalLen (fs.map (·.1))) = .ok (ps, st) ∧
+      verifyBits H (storeOf fs) ps (createHashes H pl (fs.map (·.2))) = some (List.replicate n true)
+
+/-- **create_verify_partial.** The full statement under the one extra hypothesis that excludes
+F02: no file of the tree is marked as a padding file when the created metainfo is parsed (i.e. no
+name starts with `_____padding_file`).  For every `H` (SHA-1 abstract): the creation loop hashes
+exactly the contents of the pieces `NewPieces` builds, in order, so the verifier's bitfield over
+the same files is all ones. -/
+theorem create_verify_partial (H : List Nat → Nat) (pl n : Nat) (fs : List (FileEnt × List Nat))
+    (hlen : ∀ x ∈ fs, x.1.len = x.2.length) (hnopad : ∀ x ∈ fs, x.1.pad = false)
+    (hwf : WF (fs.map (·.1)) pl n (totalLen (fs.map (·.1)))) :
+    ∃ ps st, newPieces (fs.map (·.1)) pl n (totalLen (fs.map (·.1))) = .ok (ps, st) ∧
+      verifyBits H (storeOf fs) ps (createHashes H pl (fs.map (·.2))) = some (List.replicate n true) := by
+  obtain ⟨ps, st, hrun, ht, hmeta, _⟩ := newPieces_spec _ pl n _ hwf
+  refine ⟨ps, st, hrun, ?_⟩
+  simp only [TilesFiles, Bool.and_eq_true, beq_iff_eq, List.all_eq_true] at ht
+  obtain ⟨⟨⟨⟨⟨hn, hstream⟩, hall⟩, hlens⟩, _⟩, _⟩ := ht
+  have hboth : ∀ x ∈ fs, x.1.len = x.2.length ∧ x.1.pad = false := fun x hx => ⟨hlen x hx, hnopad x hx⟩
+  obtain ⟨hfit, hpads⟩ := fits_storeOf fs hboth (allSecs ps) hmeta
+  have hpl : ∀ p ∈ ps, p.len = secsLen p.secs := fun p hp => by simpa [secsLen] using hall p hp
+  -- contents of the pieces, concatenated, are the contents of the files, concatenated
+  have hcat : (fs.map (·.2)).flatten = (ps.map fun p => pieceContent (storeOf fs) p.secs).flatten := by
+    rw [← pieceContent_allSecs, pieceContent_eq_look _ _ hfit hpads, hstream]
+    have := fileStream_look fs [] hboth
+    simpa using this.symm
+  rw [createHashes_eq H hwf.pl_pos _ _ hcat (validChunks_of_lensOK _ ps hlens hpl), List.map_map, ← hn]
+  apply verifyBits_all
+  intro p hp
+  refine ⟨?_, hpl p hp, pos_of_lensOK hwf.pl_pos ps hlens p hp⟩
+  unfold fits at hfit ⊢
+  rw [List.all_eq_true] at hfit ⊢
+  intro s hs
+  apply hfit s
+  simp only [allSecs, List.mem_flatMap]
+  exact ⟨p, hp, hs⟩
+
+/-- **create_verify_counterexample** (F02 on the model).  One 2-byte file that parsing marks as
+padding (`_____padding_file…`) with non-zero content: creation hashes `[1, 2]`, the verifier reads
+zeros from the `PaddingFile`, and for `H = sum` the bit is not set. -/
+theorem create_verify_counterexample : ¬ create_verify_full := by
+  intro h
+  obtain ⟨ps, st, hrun, hv⟩ := h (fun bs => bs.sum) 2 1 [(⟨2, true, 1⟩, [1, 2])] (by decide) (by decide)
+  have hnp : newPieces ([(⟨2, true, 1⟩, [1, 2])].map (·.1)) 2 1 (totalLen ([(⟨2, true, 1⟩, [1, 2])].map (·.1))) =
+      .ok ([⟨2, [⟨0, 0, 2, true, 1⟩]⟩], 1) := by decide
+  rw [hnp] at hrun
+  cases hrun
+  revert hv
+  decide
+
+/-- Non-vacuity of `create_verify_partial`: three files, one empty, piece length 4, 9 bytes. -/
+example : let fs : List (FileEnt × List Nat) := [(⟨3, false, 1⟩, [1, 2, 3]), (⟨0, false, 2⟩, []), (⟨6, false, 3⟩, [4, 5, 6, 7, 8, 9])]
+    (∀ x ∈ fs, x.1.len = x.2.length) ∧ (∀ x ∈ fs, x.1.pad = false) ∧ WF (fs.map (·.1)) 4 3 (totalLen (fs.map (·.1))) ∧
+    createHashes (fun bs => bs.sum) 4 (fs.map (·.2)) = [10, 26, 9] := by decide
+
+end CreateVerify
+
+/-! ### the two halves together: blocks of the pieces of an accepted metainfo -/
+section PieceBlocks
+open Rain.Geometry
+
+/-- What `calculateBlocks` reads of a section. -/
+def toBlockSec (s : Geometry.Sec) : Blocks.Sec := { len := s.len, pad := s.pad }
+
+/-- **pieces_blocks_tile.** For every accepted metainfo, every piece built by `NewPieces` has at
+least one section (so `calculateBlocks` does not panic on `p.Data[0]`), and its 16 KiB blocks
+tile exactly its non-padding bytes, none longer than 16 KiB. -/
+theorem pieces_blocks_tile (files : List FileEnt) (pl n L : Nat) (h : WF files pl n L) :
+    ∃ ps steps, newPieces files pl n L = .ok (ps, steps) ∧
+      ∀ p ∈ ps, ∃ bl, calcBlocks 16384 (p.secs.map toBlockSec) = some bl ∧
+        Tiles 16384 (p.secs.map toBlockSec) bl = true := by
+  obtain ⟨ps, steps, hrun, ht⟩ := newPieces_tiles files pl n L h
+  refine ⟨ps, steps, hrun, fun p hp => ?_⟩
+  apply calcBlocks_tiles 16384 (by decide)
+  intro hnil
+  have hsecs : p.secs = [] := by simpa using hnil
+  simp only [TilesFiles, Bool.and_eq_true, beq_iff_eq, List.all_eq_true] at ht
+  have hlen : p.len = 0 := by simpa [hsecs] using ht.1.1.1.2 p hp
+  have := pos_of_lensOK h.pl_pos ps ht.1.1.2 p hp
+  omega
+
+end PieceBlocks
 
 end Rain.Props.C02
